@@ -140,3 +140,36 @@ func Verif_C02_encrypted_programs() {
 	}
 	verifCheckRead(doc, &ReaderOptions{Password: "pw"})
 }
+
+// Verif_C02_names: names of three arbitrary bytes as a value and as a
+// dictionary key, written with Put or WriteCompressed and read back (the
+// program harness keeps its names at one symbolic byte).
+func Verif_C02_names() {
+	defer verifFixRand()()
+	v := []Version{V1_7, V1_4}[verifrt.Choice("version", 2)]
+	human := verifrt.Choice("human", 2) == 1
+	var buf bytes.Buffer
+	w, err := NewWriter(&buf, v, &WriterOptions{HumanReadable: human})
+	verifrt.Assert(err == nil, "NewWriter succeeds")
+	if err != nil {
+		return
+	}
+	name := Name(verifrt.String("name", 3))
+	obj := Object(Dict{name: Integer(1), "V": name})
+	ref := w.Alloc()
+	if verifrt.Choice("compressed", 2) == 1 {
+		verifrt.Assert(w.WriteCompressed([]Reference{ref}, obj) == nil, "WriteCompressed succeeds")
+	} else {
+		verifrt.Assert(w.Put(ref, obj) == nil, "Put succeeds")
+	}
+	w.GetMeta().Catalog.Pages = w.Alloc()
+	verifrt.Assert(w.Close() == nil, "Close succeeds")
+	r, err := NewReader(bytes.NewReader(buf.Bytes()), int64(buf.Len()), nil)
+	verifrt.Assert(err == nil, "NewReader opens the written file")
+	if err != nil {
+		return
+	}
+	got, err := r.Get(ref, true)
+	verifrt.Cover("read back")
+	verifrt.Assert(err == nil && verifEqual(obj, got), "written object reads back equal")
+}
